@@ -1521,6 +1521,12 @@ class IRGenerator:
                         env,
                         route.doc,
                         (route._ast_node.lineno + 1, route._ast_node.path))
+            for alias in namespace.aliases:
+                if alias.doc:
+                    self._validate_doc_refs_helper(
+                        env,
+                        alias.doc,
+                        (alias._ast_node.lineno + 1, alias._ast_node.path))
 
     def _validate_doc_refs_helper(self, env, doc, loc, type_context=None):
         """
@@ -1593,7 +1599,7 @@ class IRGenerator:
                             _quote_text(val),
                             *loc)
             elif tag == 'link':
-                if not (1 < val.rfind(' ') < len(val) - 1):
+                if not (0 < val.rfind(' ') < len(val) - 1):
                     # There must be a space somewhere in the middle of the
                     # string to separate the title from the uri.
                     raise InvalidSpec(
